@@ -14,7 +14,7 @@ EXPLANATION = ('Decides presence and exact predicate of every static check of th
 NOT_DECIDED = ['completeness of the checks with respect to an independent checker written from the book', 'grammar acceptance beyond the keyword rules of C17']
 ASSUMPTIONS = ['the reviewed table was frozen from a tree whose checks were read against the book (tables/guards.md)']
 
-EXCLUDE = re.compile(r'^(witness::WitnessValues::is_consistent)$')
+EXCLUDE = re.compile(r'^(witness::WitnessValues::is_consistent|debug::.*|<.* as std::fmt::Display>::fmt.*|types::TypeInner::<A>::display|error::Span::to_slice)$')
 
 
 def table_rule(ctx, rid, select, what):
@@ -25,6 +25,13 @@ def table_rule(ctx, rid, select, what):
     paths = sorted(p for p in (set(table) | cur) if select(p))
     n = guards.compare(ctx, rid, paths, table, what)
     return n, len(paths)
+
+
+def group_rule(ctx, rid, regex, what, floor):
+    r = re.compile(regex)
+    n, f = table_rule(ctx, rid, lambda p: bool(r.match(p)), what)
+    ctx.floor(rid, 'functions in table group (%s)' % what, f, floor)
+    return n
 
 
 def check(ctx):
